@@ -275,7 +275,7 @@ class G:
         same = [y for y in dims if dims[y] == n]
         qs = ["is_empty", "is_universe", "is_bounded", "is_topologically_closed", "contains", "strictly_contains",
               "is_disjoint_from", "equals", "relation_with_con", "bounds_from_above", "bounds_from_below", "maximize", "minimize",
-              "relation_with_gen", "affine_dimension", "relation_with_cg", "frequency"]
+              "relation_with_gen", "affine_dimension", "relation_with_cg", "frequency", "is_discrete"]
         if n > 0: qs += ["constrains"]
         q = r.choice(qs)
         p = "qry %d %s" % (x, q)
@@ -409,7 +409,7 @@ class Lazy(G):
 
     def battery(self, x, n, topo, twin, dirs):
         """queries, each to be asked of a fresh copy of x in its current lazy state"""
-        qs = ["is_empty", "is_universe", "is_bounded", "is_topologically_closed", "affine_dimension",
+        qs = ["is_empty", "is_universe", "is_bounded", "is_topologically_closed", "affine_dimension", "is_discrete",
               "equals %d" % twin, "contains %d" % twin, "strictly_contains %d" % twin, "is_disjoint_from %d" % twin]
         for d in dirs:
             e = "%d 0 %s" % (n, " ".join(map(str, d)))
@@ -539,7 +539,7 @@ class Lazy(G):
         for o in r.sample(["minimized_constraints", "minimized_generators", "constraints", "generators"], r.randint(1, 3)):
             L.append("obs 0 %s" % o)
         L.append("twin 1 0 %s" % r.choice(["cons", "gens", "cons_nm", "gens_nm"]))
-        qs = ["is_topologically_closed", "is_empty", "is_bounded", "is_universe", "equals 1", "contains 1", "strictly_contains 1", "affine_dimension"]
+        qs = ["is_topologically_closed", "is_empty", "is_bounded", "is_universe", "equals 1", "contains 1", "strictly_contains 1", "affine_dimension", "is_discrete"]
         for i in range(n):
             for sgn in (1, -1):
                 e = "%d 0 %s" % (n, " ".join(str(sgn if j == i else 0) for j in range(n)))
